@@ -235,6 +235,16 @@ class Ctx:
             return ref          # `self` modelled as a plain value (e.g. a list subclass as its list)
         return ObjView(self._e, self._st, ref)
 
+    def view(self, v):
+        """Field access on an object-valued expression (e.g. c.view(c.result).field)."""
+        if isinstance(v, ObjView):
+            return v
+        if isinstance(v.s, S.Opt) and isinstance(v.s.inner, S.Obj):
+            v = v.s.val(v)
+        if not isinstance(v.s, S.Obj):
+            raise EngineError("view() of a value of sort %s" % v.s)
+        return ObjView(self._e, self._st, v)
+
     def has(self, n):
         return n in self._st.env
 
@@ -246,7 +256,10 @@ class Ctx:
 
     def __getattr__(self, n):
         if n in self._extra:
-            return self._extra[n]
+            v = self._extra[n]
+            if isinstance(v, S.V) and isinstance(v.s, S.Obj):
+                return ObjView(self._e, self._st, v)
+            return v
         st = self._st
         if n in st.env:
             v = st.env[n]
